@@ -240,6 +240,7 @@ def run_history(ctx, pruning, events, model_out=None, label="history"):
         srv = Drv(pruning)
         spec = Spec(pruning)
         comparable = model_out is not None
+        diverged = False        # the table already differs from the reference: report once, then stop comparing it
         for i, (now, host, sport, data) in enumerate(events):
             clock.now = now
             what = spec_classify(data)
@@ -256,7 +257,7 @@ def run_history(ctx, pruning, events, model_out=None, label="history"):
                               expected="the datagram is dropped and the loop continues",
                               what="one datagram (%s) raises out of RegistryServer._work and ends the registry" % kind)
             # ---- replies
-            if exc is None and kind in COMMANDS:
+            if exc is None and kind in COMMANDS and not diverged:
                 if len(sent) != 1 or sent[0][1] != (host, sport):
                     ctx.violation("reply-missing-or-misdirected:" + kind, case(), observed=short(sent), expected="one reply to the sender",
                                   what="a well-formed %s got %d replies" % (kind, len(sent)))
@@ -295,18 +296,21 @@ def run_history(ctx, pruning, events, model_out=None, label="history"):
                                   expected=short(sorted(want.items(), key=repr)), what="a membership change was not notified")
             # ---- the table is what the requests so far say (modulo lazy pruning of stale entries)
             spec.apply(what, host, now)
-            for n in set(srv.services) | set(spec.reg):
+            for n in (set(srv.services) | set(spec.reg)) if not diverged else ():
                 real, want_tb = srv.services.get(n, {}), spec.reg.get(n, {})
                 for a in set(real) | set(want_tb):
                     if a in real and a not in want_tb:
+                        diverged = True
                         ctx.violation("collateral:ghost-registration:" + kind, case(), observed=short((n, a, real[a])), expected="absent",
-                                      what="the table holds a registration nobody made (or one that was unregistered)")
+                                      what="after a %s the table holds a registration nobody made (or one that was unregistered)" % kind)
                     elif a in real and real[a] != want_tb[a]:
+                        diverged = True
                         ctx.violation("collateral:refresh-time:" + kind, case(), observed=short((n, a, real[a])), expected=short(want_tb[a]),
-                                      what="refresh time of a registration differs from its last register request")
+                                      what="after a %s the refresh time of a registration differs from its last register request" % kind)
                     elif a not in real and want_tb[a] >= now - pruning:
+                        diverged = True
                         ctx.violation("collateral:lost-registration:" + kind, case(), observed="absent", expected=short((n, a, want_tb[a])),
-                                      what="a fresh registration disappeared without an unregister from its owner")
+                                      what="after a %s a fresh registration disappeared without an unregister from its owner" % kind)
             if kind not in COMMANDS and exc is None and before != after:
                 ctx.violation("collateral:malformed-changed-table:" + kind, case(), observed=short(sorted(after ^ before, key=repr)), expected="no change",
                               what="a malformed datagram changed the table")
@@ -592,17 +596,27 @@ def udp_run(ctx, datagrams):
             _time.sleep(0.15)
         finally:
             s.close()
-        alive = th.is_alive()
-        ans = R.UDPRegistryClient(ip="127.0.0.1", port=port, timeout=0.6, logger=_quiet).discover("FOO") if alive else None
+        spec = Spec(240)
+        spec.apply(("register", ["FOO"], 1234), "127.0.0.1", 0)
+        for d in datagrams:
+            spec.apply(spec_classify(d), "127.0.0.1", 0)
+        want = set(spec.fresh("FOO", 0))
+        ans = R.UDPRegistryClient(ip="127.0.0.1", port=port, timeout=0.6, logger=_quiet).discover("FOO") if th.is_alive() else None
+        good = type(ans) is tuple and set(ans) == want and len(ans) == len(want)
+        if not good:
+            _time.sleep(0.2)        # let a dying thread finish dying before deciding which failure this is
+        alive = th.is_alive() and srv.crash is None
         ctx.case(("udp", tuple(datagrams)), nontrivial=True, sample={"udp_datagrams": len(datagrams), "alive": alive})
         ctx.count("socket:udp-run")
         if not alive:
             kinds = [spec_classify(d)[0] for d in datagrams]
-            ctx.violation("loop-dies:AttributeError:command-not-text" if "command-not-text" in kinds else "loop-dies:udp:" + kinds[0], case,
-                          observed="server thread ended", expected="server keeps answering",
-                          what="a datagram ends the UDP registry's main loop (thread dead, socket closed)")
-        elif not ok or ans != (("127.0.0.1", 1234),):
-            ctx.violation("udp-registry-stops-answering", case, observed=short((ok, ans)), expected="(True, (('127.0.0.1', 1234),))",
+            bad = [k for k in kinds if k not in COMMANDS] or kinds
+            kind = "command-not-text" if "command-not-text" in bad else bad[0]
+            ctx.violation("loop-dies:%s:%s" % (C.exc_enum(srv.crash) if srv.crash else "thread-ended", kind), case,
+                          observed="server thread ended: %r" % (srv.crash,), expected="server keeps answering",
+                          what="a datagram (%s) ends the UDP registry's main loop (thread dead, socket closed)" % kind)
+        elif not ok or not good:
+            ctx.violation("udp-registry-stops-answering", case, observed=short((ok, ans)), expected=short((True, sorted(want, key=repr))),
                           what="after malformed datagrams the UDP registry no longer answers a query correctly")
     finally:
         if not _stop(srv, th):
